@@ -377,7 +377,7 @@ def diff(before, after):
     Return a dictionary with the difference between 'before' and 'after',
     for items which are present in 'after' dictionary
     """
-    diff = dict((k, v) for (k, v) in after.items() if before.get(k, None) != v)
+    diff = dict((k, v) for (k, v) in after.items() if k not in before or before[k] != v)
     return diff
 
 
